@@ -681,3 +681,146 @@ func VerifVOP3aFloatAgree() {
 	}
 	verif.Assert(zzvSameState(rg, rc, []int{a, b}), "the GCN3 and CDNA3 ALUs apply the abs/neg source modifiers differently: "+tag)
 }
+
+// zzvCmpSpec: integer VOPC comparison by mnemonic ("v_cmp[x]_<op>_<type>...").
+func zzvCmpSpec(name string, s0, s1 uint64) (res bool, known, isX, is64 bool) {
+	isX = strings.HasPrefix(name, "v_cmpx_")
+	rest := strings.TrimPrefix(strings.TrimPrefix(name, "v_cmpx_"), "v_cmp_")
+	parts := strings.Split(rest, "_")
+	if len(parts) < 2 {
+		return
+	}
+	op, ty := parts[0], parts[1]
+	var lt, eq bool
+	switch ty {
+	case "i32":
+		a, b := int32(s0), int32(s1)
+		lt, eq = a < b, a == b
+	case "u32":
+		a, b := uint32(s0), uint32(s1)
+		lt, eq = a < b, a == b
+	case "i64":
+		lt, eq, is64 = int64(s0) < int64(s1), s0 == s1, true
+	case "u64":
+		lt, eq, is64 = s0 < s1, s0 == s1, true
+	default:
+		return
+	}
+	known = true
+	switch op {
+	case "f":
+		res = false
+	case "lt":
+		res = lt
+	case "eq":
+		res = eq
+	case "le":
+		res = verif.Or(lt, eq)
+	case "gt":
+		res = verif.And(!lt, !eq)
+	case "lg", "ne":
+		res = !eq
+	case "ge":
+		res = !lt
+	case "tru", "t":
+		res = true
+	default:
+		known = false
+	}
+	return
+}
+
+// VerifVOPCSpec (C03): the integer vector compares (VOPC v_cmp / v_cmpx, 32-
+// and 64-bit, signed and unsigned, all eight relations) per lane on both
+// ALUs: the VCC bit of every active lane is the comparison of that lane's own
+// operands, v_cmpx additionally narrows EXEC to the lanes that passed,
+// nothing else changes.
+func VerifVOPCSpec() {
+	gcn3 := verif.Choice(2) == 0
+	var rows []*insts.InstType
+	for _, r := range zzvVRows {
+		if r.Format.FormatType == insts.VOPC {
+			if _, known, _, _ := zzvCmpSpec(r.InstName, 0, 0); known {
+				rows = append(rows, r)
+			}
+		}
+	}
+	row := rows[verif.Choice(len(rows))]
+	inst := zzvEncodeVector(row, !gcn3)
+	if inst == nil {
+		return
+	}
+	a := []int{0, 31, 32, 63}[verif.Choice(verif.Param("specLanes", 4))]
+	b := (a + 37) % 64
+	la, lb := zzvNewLane(0x10), zzvNewLane(0x40)
+	sregs := verif.Bytes(4 * 102)
+	vccRest, scc, m0, pc := verif.U64(), verif.U8()&1, verif.U32(), verif.U64()
+	mask := ^(uint64(1)<<uint(a) | uint64(1)<<uint(b))
+	vcc0 := vccRest&mask | zzvBit(la.vcc, a) | zzvBit(lb.vcc, b)
+	exec0 := zzvBit(la.exec, a) | zzvBit(lb.exec, b)
+	fill := func(wf *emu.Wavefront, lds []byte) {
+		copy(wf.SRegFile, sregs)
+		copy(wf.VRegFile[a*1024:], la.regs)
+		copy(wf.VRegFile[b*1024:], lb.regs)
+		wf.SetEXEC(exec0)
+		wf.SetVCC(vcc0)
+		wf.SetSCC(scc)
+		wf.M0 = m0
+		wf.SetPC(pc)
+	}
+	tag := "vopc." + row.InstName
+	if gcn3 {
+		tag = "gcn3 " + tag
+	} else {
+		tag = "cdna3 " + tag
+	}
+	r := zzvExec(gcn3, inst, map[uint64]uint8{}, fill)
+	verif.Assert(r.fault == "", "memory fault while executing "+tag)
+	if r.fault != "" {
+		return
+	}
+	if r.notImplemented {
+		verif.Cover("not implemented: " + tag)
+		return
+	}
+	lanes := []int{a, b}
+	isX := false
+	okBits, okExec := true, true
+	for li, l := range []*zzvLane{la, lb} {
+		s0 := zzvRead64(l.regs[4*zzvRSrc0:])
+		s1 := zzvRead64(l.regs[4*zzvRSrc1:])
+		res, _, x, is64 := zzvCmpSpec(row.InstName, s0, s1)
+		if !is64 {
+			res, _, x, _ = zzvCmpSpec(row.InstName, s0&0xffffffff, s1&0xffffffff)
+		}
+		isX = x
+		got := (r.wf.VCC()>>uint(lanes[li]))&1 == 1
+		okBits = verif.And(okBits, verif.Implies(l.exec, got == res))
+		gotE := (r.wf.EXEC()>>uint(lanes[li]))&1 == 1
+		if x {
+			okExec = verif.And(okExec, gotE == verif.And(l.exec, res))
+		} else {
+			okExec = verif.And(okExec, gotE == l.exec)
+		}
+	}
+	verif.Assert(okBits, "VCC bit of an active lane differs from the comparison of its operands: "+tag)
+	verif.Assert(okExec, "EXEC after the compare differs from the ISA (v_cmpx narrows it, v_cmp leaves it): "+tag)
+	verif.Assert(r.wf.EXEC()&mask == 0, "EXEC bits of lanes that were inactive were set: "+tag)
+	_ = isX
+	frame := true
+	for _, lane := range lanes {
+		src := la
+		if lane == b {
+			src = lb
+		}
+		for i := 0; i < 4*zzvRTop; i++ {
+			frame = verif.And(frame, r.wf.VRegFile[lane*1024+i] == src.regs[i])
+		}
+	}
+	for i := range sregs {
+		frame = verif.And(frame, r.wf.SRegFile[i] == sregs[i])
+	}
+	verif.Assert(frame, "a register changed during a compare: "+tag)
+	verif.Assert(verif.And(r.wf.SCC() == scc, verif.And(r.wf.M0 == m0, r.wf.PC() == pc)), "SCC, M0 or PC changed: "+tag)
+	verif.Cover("checked")
+}
